@@ -1,6 +1,6 @@
 """Per-property configuration: streams/generators, projection compared between model and
 implementation, executable oracle, Lean targets and the theorems that must be audited."""
-import random
+import os, random
 from vcommon import Case
 import gen_graph, oracle_graph
 
@@ -76,7 +76,7 @@ import gen_build as GB, oracle_build as OB
 def build_stream(gens, nq, nt):
     """gens: list of (name, generator(rng) -> body | (body, meta), weight)"""
     def generate(rng, tier, seed):
-        n = nq if tier == "quick" else nt
+        n = int(os.environ["VERIF_SOAK_N"]) if tier == "soak" else (nq if tier == "quick" else nt)
         cases, agg = [], {}
         names = [g[0] for g in gens for _ in range(g[2])]
         fns = {g[0]: g[1] for g in gens}
@@ -101,7 +101,6 @@ def build_stats(case, io):
     return any(l.startswith("ev execute_start") for l in io)
 
 
-WELL = [("td", GB.case_td, 2), ("bu", GB.case_bu, 1)]
 BUILD_RULE = ("scripted task programs (3-8 tasks, value-dependent requires/reads/writes, all built-in and harness checkers) with "
               "histories of sessions and external changes, generated from VERIF_SEED; a case is non-trivial if at least one task "
               "executed on the real crates; distinct = distinct case text")
@@ -109,14 +108,61 @@ BUILD_RULE = ("scripted task programs (3-8 tasks, value-dependent requires/reads
 ALL_BUILD = ("op ", "ev ", "tl ", "out ", "abort ", "done", "skipped", "errors ", "fs ", "st ", "cl ", "known ", "bad-op", "et ", "composite")
 
 
-def known_if_model_agrees(fid, oracle):
+import re as _re
+
+
+def pat_failing_stamper(case, io):
+    """K5: some task reads with a checker whose *stamp* can fail (harness checker ids 30-33)"""
+    return any(_re.search(r"\bread \d+ 3[0-3]\b", l) for l in case.body if l.startswith("task "))
+
+
+def pat_multi_dep_one_target(case, io):
+    """K2: some task performs two dependency operations on one target that differ in kind or checker"""
+    for l in case.body:
+        if not l.startswith("task "): continue
+        t = l.split(" ")
+        seen = {}
+        for i, w in enumerate(t):
+            if w in ("req", "read", "write", "wrote") and i + 2 < len(t) and t[i + 1].lstrip("-").isdigit() and t[i + 2].isdigit():
+                key = ("T" if w == "req" else "R", t[i + 1])
+                kind = "req" if w == "req" else ("read" if w == "read" else "write")
+                if key in seen and (kind, t[i + 2]) not in seen[key]: return True
+                seen.setdefault(key, set()).add((kind, t[i + 2]))
+    return False
+
+
+def pat_after_abort(case, io):
+    """K6/K7: an earlier build of the history aborted"""
+    return any(l.startswith("abort ") for l in io)
+
+
+def pat_partial_topdown_before_bu(case, io):
+    """K1: after some session, an external change, then a session that only requires top-down (no bottom-up build),
+    then later a bottom-up build"""
+    seen_session = changed = partial = False
+    in_sess, has_bu, has_req = False, False, False
+    for l in case.body:
+        w = l.split(" ")[0]
+        if w == "session": in_sess, has_bu, has_req = True, False, False
+        elif w == "endsession":
+            if in_sess and has_req and not has_bu and seen_session and changed: partial = True
+            if in_sess and has_bu and partial: return True
+            seen_session, in_sess = True, False
+            if has_bu: changed = False
+        elif w in ("set", "del") and seen_session: changed = True
+        elif w == "bu": has_bu = True
+        elif w in ("req", "reqknown"): has_req = True
+    return False
+
+
+def known_if_model_agrees(fid, oracle, pattern=None):
     """pattern of a known finding: the oracle fails on the implementation AND on the model's own output for the same
     case (the finding is a property of the algorithm as modelled, not a deviation of the code from the model)."""
     def km(case, io, mo):
         fi, fm = oracle(case, io), oracle(case, mo)
         # every failure observed on the implementation must be a failure of the model on the same case, message for
         # message: a different clause / different values failing is not the recorded finding
-        return fid if (fi and fm and set(fi) <= set(fm)) else None
+        return fid if (fi and fm and set(fi) <= set(fm) and (pattern is None or pattern(case, io))) else None
     return km
 
 
@@ -125,56 +171,84 @@ def mk(prop, gens, nq, nt, proj, oracle, theorems, **kw):
                 rule=BUILD_RULE, lean_targets=[f"PieModel.Props.{prop}"], theorems=theorems, **kw)
 
 
+# streams: name -> generator. Every property runs its own focus streams with a high weight AND the other streams its
+# oracle is valid on (the property must hold there on the unchanged tree), so that a change whose trigger lives in
+# another corner (after an abort, under a failing checker, in a bottom-up build, ...) is still seen by this property.
+S = dict(
+    td=GB.case_td, tdx=lambda r: (GB.case_td(r, exact=True), dict(exact=True)), bu=GB.case_bu, bud=GB.case_bu_dense,
+    pan=GB.case_panic, pano=GB.case_panic_only, fail=GB.case_failing_checker, buf=GB.case_bu_fail, hid=GB.case_hidden,
+    ovl=GB.case_overlap, cyc=GB.case_cycle, rol=GB.case_roles, ero=GB.case_erosion, k1=GB.case_partial_td_then_bu,
+    k2=GB.case_multichecker,
+    # top-down-only histories (C01's quantifier: sessions of requires interleaved with external changes)
+    panotd=lambda r: GB.case_panic_only(r, bu_prob=0.0), failtd=lambda r: GB.case_failing_checker(r, bu_prob=0.0))
+
+
+def st(**w):
+    return [(k, S[k], v) for k, v in w.items()]
+
+
+WELLFORMED_STREAMS = ("td", "tdx", "bu", "bud")
+
+
+def c01_oracle(c, io):
+    # "the incremental build aborted although the from-scratch build returns" is claimed only for well-formed programs
+    # (C20/C19 own that clause elsewhere)
+    f = OB.c01(c, io)
+    if c.meta.get("stream") not in WELLFORMED_STREAMS + (None,):
+        f = [x for x in f if "incremental build aborted/skipped" not in x]
+    return f
+
+
 PROPS.update({
-    "C01": mk("C01", WELL + [("tdx", lambda r: GB.case_td(r, exact=True), 1)], 3000, 30000,
-              proj_lines(("op ", "out ", "abort ", "done", "skipped", "fs ", "cl ", "known ", "bad-op")), OB.c01, [],
+    "C01": mk("C01", st(td=4, tdx=2, bu=1, failtd=2, panotd=2), 3000, 30000,
+              proj_lines(("op ", "out ", "abort ", "done", "skipped", "fs ", "cl ", "known ", "bad-op")), c01_oracle, [],
               proj_name="C01: returned outputs, abort kinds, resource contents, reference builds",
-              known_match=known_if_model_agrees("K5", OB.c01)),
-    "C02": mk("C02", [("td", GB.case_td, 2), ("tdx", lambda r: (GB.case_td(r, exact=True), dict(exact=True)), 2), ("pan", GB.case_panic, 1)], 3000, 30000,
+              known_match=known_if_model_agrees("K5", c01_oracle, pat_failing_stamper)),
+    "C02": mk("C02", st(td=3, tdx=3, pan=2, pano=1, fail=1, bu=1, hid=1, ovl=1, cyc=1, rol=1), 3000, 30000,
               proj_lines(("op ", "ev execute_start", "ev check_", "out ", "abort ", "cl exec", "bad-op")),
               lambda c, io: OB.c02(c, io, exact=c.meta.get("exact", False)), [],
               proj_name="C02: execute_start and check events with verdicts per session"),
-    "C03": mk("C03", [("bu", GB.case_bu, 3), ("bud", GB.case_bu_dense, 2), ("k1", GB.case_partial_td_then_bu, 1)], 3000, 30000,
+    "C03": mk("C03", st(bu=4, bud=3, k1=1), 3000, 30000,
               proj_lines(("op ", "ev execute_", "ev schedule_task", "out ", "abort ", "done", "fs ", "cl ", "known ", "bad-op")), OB.c03, [],
-              proj_name="C03: executions, scheduling, outputs, contents", known_match=known_if_model_agrees("K1", OB.c03)),
-    "C04": mk("C04", [("bu", GB.case_bu, 1), ("bud", GB.case_bu_dense, 1)], 3000, 30000,
+              proj_name="C03: executions, scheduling, outputs, contents", known_match=known_if_model_agrees("K1", OB.c03, pat_partial_topdown_before_bu)),
+    "C04": mk("C04", st(bu=3, bud=3, buf=1, pan=1, rol=1, ero=1, hid=1, ovl=1), 3000, 30000,
               proj_lines(("op ", "ev execute_", "ev schedule_", "ev check_task_re", "out ", "abort ", "done", "bad-op")), OB.c04, [],
-              proj_name="C04: order of execute_start/end, schedule and scheduling-check events", known_match=known_if_model_agrees("K7", OB.c04)),
-    "C05": mk("C05", [("hid", GB.case_hidden, 3), ("ero", GB.case_erosion, 1), ("td", GB.case_td, 1)], 3000, 30000,
+              proj_name="C04: order of execute_start/end, schedule and scheduling-check events", known_match=known_if_model_agrees("K7", OB.c04, pat_after_abort)),
+    "C05": mk("C05", st(hid=4, ero=2, td=1, bu=1, bud=1, pan=1, ovl=1, rol=1), 3000, 30000,
               proj_lines(("op ", "out ", "abort ", "done", "skipped", "fs ", "st ", "bad-op")),
               lambda c, io: OB.dump_invariants(c, io, "C05") + OB.abort_content(c, io), [],
               proj_name="C05: abort kinds, contents at abort, store dump",
               known_match=known_if_model_agrees("K4", lambda c, io: OB.dump_invariants(c, io, "C05"))),
-    "C06": mk("C06", [("ovl", GB.case_overlap, 3), ("td", GB.case_td, 1), ("bu", GB.case_bu, 1)], 3000, 30000,
+    "C06": mk("C06", st(ovl=4, td=1, bu=1, bud=1, hid=1, pan=1, rol=1, ero=1), 3000, 30000,
               proj_lines(("op ", "out ", "abort ", "done", "skipped", "fs ", "st ", "bad-op")),
               lambda c, io: OB.dump_invariants(c, io, "C06") + OB.abort_content(c, io) + (
-                  [f"well-formed program aborted: {l}" for l in io if l == "abort overlap"] if c.meta.get("stream") in ("td", "bu") else []), [],
+                  [f"well-formed program aborted: {l}" for l in io if l == "abort overlap"] if c.meta.get("stream") in WELLFORMED_STREAMS else []), [],
               proj_name="C06: abort kinds, contents at abort, store dump"),
-    "C07": mk("C07", [("cyc", GB.case_cycle, 1)], 3000, 30000,
+    "C07": mk("C07", st(cyc=4, pan=1, rol=1, td=1, bu=1, bud=1), 3000, 30000,
               proj_lines(("op ", "out ", "abort ", "done", "skipped", "tl ", "st ", "bad-op")), OB.c07, [],
               proj_name="C07: abort kinds, task-side log, store dump"),
-    "C08": mk("C08", [("td", GB.case_td, 2), ("bu", GB.case_bu, 1), ("bud", GB.case_bu_dense, 1), ("pan", GB.case_panic, 1), ("k2", GB.case_multichecker, 1)], 3000, 30000,
+    "C08": mk("C08", st(td=3, bu=2, bud=2, pan=2, k2=2, fail=1, hid=1, ovl=1, cyc=1, rol=1, ero=1), 3000, 30000,
               proj_lines(("op ", "st ", "abort ", "bad-op")), OB.c08, [],
-              proj_name="C08: store dump after every session", known_match=known_if_model_agrees("K2", OB.c08)),
-    "C09": mk("C09", WELL + [("fail", GB.case_failing_checker, 1)], 3000, 30000,
+              proj_name="C08: store dump after every session", known_match=known_if_model_agrees("K2", OB.c08, pat_multi_dep_one_target)),
+    "C09": mk("C09", st(td=3, bu=2, fail=2, bud=1, buf=1, pan=1, hid=1), 3000, 30000,
               proj_lines(("op ", "ev read_end", "ev write_end", "ev require_end", "ev check_", "abort ", "bad-op")), OB.c09, [],
               proj_name="C09: stamps in *_end events and verdicts of every check event"),
-    "C16": mk("C16", WELL + [("bud", GB.case_bu_dense, 2), ("hid", GB.case_hidden, 1), ("fail", GB.case_failing_checker, 1)], 3000, 30000,
+    "C16": mk("C16", st(td=2, bu=2, bud=2, hid=1, fail=1, buf=1, pan=1, ovl=1, cyc=1, rol=1, ero=1, k1=1, k2=1), 3000, 30000,
               proj_lines(ALL_BUILD), lambda c, io: [], [], proj_name="C16: complete canonical event stream and outputs",
               replays=dict(quick=2, thorough=7)),
-    "C17": mk("C17", WELL + [("pan", GB.case_panic, 1), ("fail", GB.case_failing_checker, 1)], 3000, 30000,
+    "C17": mk("C17", st(td=2, bu=2, pan=2, fail=2, bud=1, buf=1, hid=1, ovl=1, cyc=1, rol=1), 3000, 30000,
               proj_lines(("op ", "ev ", "tl ", "et ", "composite", "out ", "abort ", "done", "bad-op")), OB.c17, [],
               proj_name="C17: complete event stream, task-side log, EventTracker contents"),
-    "C18": mk("C18", [("fail", GB.case_failing_checker, 1)], 3000, 30000,
+    "C18": mk("C18", st(fail=4, buf=2, td=1, bu=1), 3000, 30000,
               proj_lines(("op ", "errors ", "ev execute_start", "ev schedule_task", "out ", "abort ", "done", "bad-op")), OB.c18, [],
               proj_name="C18: dependency_check_errors, executions, scheduling, outputs"),
-    "C19": mk("C19", [("pan", GB.case_panic, 1)], 3000, 30000,
+    "C19": mk("C19", st(pan=3, pano=1), 3000, 30000,
               proj_lines(("op ", "out ", "abort ", "done", "skipped", "fs ", "cl ", "bad-op")), OB.c19, [],
-              proj_name="C19: outcomes of all sessions after an abort", known_match=known_if_model_agrees("K6", OB.c19)),
-    "C20": mk("C20", [("rol", GB.case_roles, 2), ("td", GB.case_td, 1), ("bu", GB.case_bu, 1), ("bud", GB.case_bu_dense, 1), ("pan", GB.case_panic, 1)], 3000, 30000,
+              proj_name="C19: outcomes of all sessions after an abort", known_match=known_if_model_agrees("K6", OB.c19, pat_after_abort)),
+    "C20": mk("C20", st(rol=3, td=1, bu=1, bud=1, pan=2, pano=1), 3000, 30000,
               proj_lines(("op ", "out ", "abort ", "done", "skipped", "cl ", "bad-op")),
               lambda c, io: OB.c20(c, io) + ([f"well-formed program aborted: {l}" for l in io if l in ("abort overlap", "abort hidden", "abort cyclic")]
-                                             if c.meta.get("stream") in ("td", "bu") else []), [],
+                                             if c.meta.get("stream") in WELLFORMED_STREAMS else []), [],
               proj_name="C20: abort kinds vs from-scratch build of all known tasks",
               known_match=known_if_model_agrees("K3", OB.c20)),
 })
@@ -187,7 +261,7 @@ import gen_lib as GL
 def lib_stream(kind, fixed, gen, nq, nt):
     def generate(rng, tier, seed):
         cases = [Case(kind, f"fixed{i}", b) for i, b in enumerate(fixed)]
-        n = nq if tier == "quick" else nt
+        n = int(os.environ["VERIF_SOAK_N"]) if tier == "soak" else (nq if tier == "quick" else nt)
         for i in range(n):
             cases.append(Case(kind, f"{kind}-{seed}-{i}", gen(random.Random(rng.getrandbits(48)))))
         return cases, dict(fixed_cases=len(fixed), random_cases=n)
